@@ -300,7 +300,8 @@ fn inproc_class(r: &CompileResult) -> String {
 
 /// the ordered patterns `MatchesWhitespaceAndString<'…', T>` of an iso.ts
 fn extract_patterns(iso_ts: &str) -> Vec<String> {
-    let needle = "MatchesWhitespaceAndString<'";
+    // the overload parameters only (the explanatory comment of iso.ts mentions the type as well)
+    let needle = "param: T & MatchesWhitespaceAndString<'";
     let mut out = vec![];
     let mut rest = iso_ts;
     while let Some(i) = rest.find(needle) {
@@ -394,7 +395,7 @@ fn desc_domain(b: &[u8]) -> bool {
     if s.is_empty() || s.chars().any(|c| c == '"' || c == '\\' || c == '\r' || (c < ' ' && c != '\n' && c != '\t')) {
         return false;
     }
-    s.split('\n').all(|l| !l.is_empty() && !l.starts_with(' ') && !l.starts_with('\t') && !l.trim().is_empty())
+    s.split('\n').all(|l| !l.is_empty() && !l.starts_with(' ') && !l.starts_with('\t') && !l.chars().all(|c| c == ' ' || c == '\t'))
 }
 
 /// raw text between the quotes of an iso string literal: StringCharacters and the escapes of the lexer,
@@ -436,14 +437,7 @@ fn header_domain(b: &[u8]) -> bool {
 
 fn path_domain(b: &[u8]) -> bool {
     match std::str::from_utf8(b) {
-        Ok(s) => {
-            !s.is_empty()
-                && s.len() <= 100
-                && !s.starts_with('.')
-                && !s.contains('/')
-                && !s.contains('\0')
-                && !s.contains("__isograph")
-        }
+        Ok(s) => !s.is_empty() && !s.starts_with('.') && !s.contains('/') && !s.contains('\0'),
         Err(_) => false,
     }
 }
@@ -1068,6 +1062,12 @@ const RAW_SNIPPETS: &[&str] = &[
 ];
 
 fn gen_crash(r: &mut Rng, i: u64) -> Vec<String> {
+    // HX_STREAM=<name>: only that generated-project stream (used when exploring one defect switch)
+    if let Ok(s) = std::env::var("HX_STREAM") {
+        let p = generate(r, &stream_opts(&s));
+        let op = if matches!(s.as_str(), "valid" | "cycle" | "lwrs" | "ptu") { "cm" } else { "co" };
+        return vec![format!("{op}\t{s}\t{}", to_wire(&p))];
+    }
     // the share of each stream is fixed by the index so that every run covers all of them
     match i % 20 {
         0..=4 => {
@@ -1135,6 +1135,16 @@ fn main() {
             "arts" | "artsdemo" => run_arts(f),
             "det" | "detdiag" | "detdup" => run_det(f),
             "cm" | "co" | "raw" | "watch" => run_crash(f),
+            // debugging aid: write the rendered project below /tmp/arts/<name>
+            "dump" if f.len() == 3 => match from_wire(f[2]) {
+                Some(p) => {
+                    let dir = PathBuf::from("/tmp/arts").join(f[1].replace(['/', '.'], "_"));
+                    let _ = std::fs::remove_dir_all(&dir);
+                    materialise(&dir, &render(&p, &RenderOpts::default()));
+                    format!("dumped\t{}", dir.display())
+                }
+                None => "bad-wire".to_string(),
+            },
             _ => "bad-request".to_string(),
         }));
         r.unwrap_or_else(|_| "panic".to_string())
